@@ -209,7 +209,8 @@ func (c *Ctx) trailingSKRule(r *Report, prefix string) {
 				continue
 			}
 			ia, ok := st.Addr.(*ssa.IndexAddr)
-			if !ok || !isByteSlice(ia.X.Type()) {
+			// the generic header is a 4-octet buffer of its own, or four explicit octets appended to the output
+			if !ok || (!isByteSlice(ia.X.Type()) && !isByteArrayPtr(ia.X.Type())) {
 				continue
 			}
 			if idx := f.LFOf(ia.Index); !idx.isConst() || idx.C != 0 {
